@@ -244,7 +244,8 @@ class Engine:
         _d = z3.Const('_d', smt.DS)
         self.base_axioms = hier.axioms() + [
             z3.ForAll([_d], z3.Implies(smt.IDX(_d), smt.LEN(_d)), patterns=[smt.IDX(_d)]),
-            z3.ForAll([_d], smt.N(_d) >= 0, patterns=[smt.N(_d)])] + self.copy_axioms()
+            z3.ForAll([_d], smt.N(_d) >= 0, patterns=[smt.N(_d)])]
+        self.used_copy = False
         # A-PRIVATE: evaluating an example or a user callable never raises the library's
         # private control signal _ItemsNotDefined
         if '_ItemsNotDefined' in hier.bases:
@@ -1287,6 +1288,9 @@ class Engine:
         if not isinstance(freeze, BoolV):
             raise Unsupported('copy(freeze=%r)' % (freeze,))
         d2 = smt.CP(recv.t, I(c))
+        if not self.used_copy:
+            self.used_copy = True
+            self.base_axioms = self.base_axioms + self.copy_axioms()
         st2 = st.fork()
         st2.ghost['ncopies'] = c + 1
         st2.ghost['copies'] = st2.ghost.get('copies', ()) + ((c, freeze.t),)
